@@ -18,12 +18,12 @@ TARGET = "x86_64-unknown-linux-gnu"
 
 # thorough-tier legs per property (DESIGN section 9); quick tier = native (+ memcheck for C18/C19)
 THOROUGH = {
-    "C01": ["release-plain", "miri"],
-    "C02": ["release-plain", "miri"],
-    "C03": ["release-plain", "miri"],
+    "C01": ["release-plain", "miri", "fuzz"],
+    "C02": ["release-plain", "miri", "fuzz"],
+    "C03": ["release-plain", "miri", "fuzz"],
     "C04": ["miri"],
     "C05": ["miri"],
-    "C06": ["release-plain", "miri"],
+    "C06": ["release-plain", "miri", "fuzz"],
     "C07": ["release-plain", "miri"],
     "C08": ["miri", "asan"],
     "C09": ["miri", "asan", "zlib"],
